@@ -105,6 +105,12 @@ class Batch(Part):
             n = rng.randint(1, 25)
             cases.append({"kind": "beh", "pre": [rng.random() < 0.3 for _ in range(n)], "rounds": rng.randint(1, 3),
                           "workers": rng.choice([1, 1, 2, 3]), "flaky": rng.random() < 0.35, "cseed": rng.randrange(1 << 30)})
+        # histories: an earlier evaluation of the (larger) batch was aborted by an unexpected exception of the objective; the designs it never
+        # reached are still to be evaluated, exactly once each, by the next call
+        for _ in range(24 if ctx.quick else 300):
+            n = rng.randint(3, 12)
+            cases.append({"kind": "aborted", "pre": [rng.random() < 0.2 for _ in range(n)], "rounds": 1, "abort_at": rng.randint(1, n),
+                          "workers": rng.choice([1, 1, 2]), "cseed": rng.randrange(1 << 30)})
         return cases
 
     def run_case(self, ctx, case):
@@ -129,6 +135,17 @@ class Batch(Part):
                 v[:] = [rng.randint(-5, 5) for _ in v]          # designs given with Python ints (grids, hand-written start points)
         precs = [rng.choice([7, 7, 7, 3, 5, 8, 0, 1]) for _ in range(n)]
         rec.new_batch(vectors, pre=case["pre"], precisions=precs)
+        if case["kind"] == "aborted":
+            from artap.individual import Individual
+            count = [0]
+            rec.script = lambda k, att, callno: "value" if count.__setitem__(0, count[0] + 1) or count[0] == case["abort_at"] else "ok"
+            jobrec.evaluate_batch(rec, workers=workers)             # ends with the ValueError (or completes, if the batch is shorter)
+            if workers > 1:
+                jobrec.quiesce(rec, timeout=3.0)
+            rec.script = lambda k, att, callno: "ok"
+            # the design whose objective raised is left out (what becomes of it is not this property's business); everything else is
+            # handed to evaluate() again, in a new recording
+            rec.rebatch([i for i in rec.inds if i.state in (Individual.State.EMPTY, Individual.State.EVALUATED)])
         exc = jobrec.evaluate_batch(rec, workers=workers, rounds=case["rounds"])
         rec.end_event(exc)
         return rec.events + rec.signed_events()
